@@ -77,3 +77,33 @@ func VerifC11_ReadErrorFunnel() {
 	}
 	vsymAssert(len(rt.delivered) == 0 && len(rt.sent) == 0, "partial-frame-never-delivered")
 }
+
+// VerifC11_T8StallFunnel: the peer stalls (socket left open) after exactly k bytes of a frame, for
+// every k in 1..13 of a 14-byte frame; T8 covers the stall: exactly one TCPDown, however the bytes
+// before the stall were segmented (in one read or two).
+func VerifC11_T8StallFunnel() {
+	vsymExpect("dropped")
+	const t8 = int64(5 * time.Second)
+	frame := append([]byte{0, 0, 0, 10}, vsymBytes(10)...)
+	frame[8], frame[9] = 0, 0
+	k := 1 + vsymChoose(13)
+	clock := int64(0)
+	cuts := []int{k}
+	delays := []int64{0, t8 + 1}
+	if k > 1 && vsymBool() {
+		j := 1 + vsymChoose(k-1)
+		cuts = []int{j, k}
+		delays = []int64{0, 0, t8 + 1}
+	}
+	conn := &vconn{stream: frame, cuts: cuts, delays: delays, clock: &clock}
+	rt := &vrt{state: hsms.SelectedState, timers: hsms.TimerConfig{T8: time.Duration(t8)}}
+	tr := newVT(rt, true)
+	tr.now = func() time.Time { return vsymMonoTime(clock) }
+	tr.conn = conn
+	tr.wg.recv.Add(1)
+	tr.recvLoop(tr.wg)
+	vsymReach("dropped")
+	vsymAssert(conn.timedOut, "stall-inside-a-frame-is-bounded-by-T8")
+	vsymAssert(len(rt.tcpDown) == 1, "t8-stall-reports-exactly-one-TCPDown")
+	vsymAssert(len(rt.delivered) == 0, "partial-frame-not-delivered")
+}
